@@ -1231,9 +1231,8 @@ class GetConfigMessage(MessagePayload):
             title=f'Get Config Command',
             fields=fields)
 
-    @classmethod
-    def calcsize(cls) -> int:
-        return cls.GetConfigMessageConstruct.sizeof()
+    def calcsize(self) -> int:
+        return len(self.pack())
 
 
 class SaveAction(IntEnum):
